@@ -183,7 +183,7 @@ def stages(tier):
              'every well-formed tree with <= 3 (quick) / 4 (thorough) branches over vars {a,b,c}, roles {:r,:r-of,:s}: decoded graph '
              'x every top x markers kept/stripped x written+reversed order; all permutations of the triple list for trees '
              'with <= 2 (quick) / 3 (thorough) branches and <= 5 triples'),
-        Hyp('random', _cases, 6000, 400000),
+        Hyp('random', _cases, 6000, 160000),
         Hyp('random-large', lambda: _cases(large=True), 150, 8000),
-        Fuzz('coverage-guided-structured', 0, 1600000, structured=_cases, max_len=2048),
+        Fuzz('coverage-guided-structured', 0, 480000, structured=_cases, max_len=2048),
     ]
